@@ -208,6 +208,13 @@ def createFromCap (classify : Bytes → CapClass) (writecap readcap : Option Byt
     | .known m w cn rf => ⟨false, if w then some cn else none, some rf, m, false⟩
     | _ => mkUnknown classify writecap readcap deepImmutable
 
+/-- `blacklist.ProhibitedNode`, the wrapper `create_from_cap` puts around a node whose storage index is in the
+    client's `access.blacklist`: `get_write_uri()`, `get_readonly_uri()`, `is_unknown()`, `is_mutable()` and
+    `is_allowed_in_immutable_directory()` delegate to the wrapped node; `raise_error()` does nothing.
+    `prohibitedView` is what packing sees of it. -/
+def prohibitedView (wrapped : Node) : Node :=
+  ⟨wrapped.unknown, wrapped.rw, wrapped.ro, wrapped.mutableObj, false⟩
+
 /-- `is_allowed_in_immutable_directory()` -/
 def Node.allowedInImmutable (n : Node) : Bool :=
   if n.unknown then !n.err && !truthy n.rw else !n.mutableObj
